@@ -7,9 +7,13 @@ Open Scope Z_scope.
 
 Section Eq.
   Variable S : schema.
-  Local Notation conf_ty := (Roundtrip.conf_ty S).
-  Local Notation conf_list := (Roundtrip.conf_list S).
-  Local Notation conf_fields := (Roundtrip.conf_fields S).
+  Variable OPS : op_table.
+  Variable ATTRS : attr_table.
+  Variable OBJS : obj_table.
+  Local Notation conf_ty := (Roundtrip.conf_ty S OPS ATTRS OBJS).
+  Local Notation conf_list := (Roundtrip.conf_list S OPS ATTRS OBJS).
+  Local Notation conf_fields := (Roundtrip.conf_fields S OPS ATTRS OBJS).
+  Local Notation conf_custom_of := (Roundtrip.conf_custom_of S OPS ATTRS OBJS).
 
   Lemma conf_ty_eq f (st : vstate) (t : ty) (tag : Z) (v : value) :
     conf_ty (Datatypes.S f) st t tag v =
@@ -45,6 +49,8 @@ Section Eq.
           | Some d, VStruct n' fs =>
             if String.eqb n n' && negb (t_custom_enc d) && negb (t_custom_dec d) && wf_fields (t_fields d)
             then conf_fields f st (t_fields d) fs
+            else if String.eqb n n' && t_custom_dec d
+            then conf_custom_of (conf_ty f) st d tag fs
             else None
           | _, _ => None
           end
